@@ -17,6 +17,106 @@ fn applicable(s: Solver, f: Family) -> bool {
     }
 }
 
+/// the one member of the generic-real lattice (thorough letters) on which BiCG stalls at 2e-10: a near breakdown (p~.Ap passes close
+/// to zero on this indefinite system) amplifies rounding, the attainable residual stays above tol = 1e-12. Known finding.
+fn floor_member() -> D {
+    let mut d = vec![vec![1.085, 0.55, 0.0], vec![0.123, -0.9199, -0.3], vec![0.55, 0.55, 0.0]];
+    d[0][0] = 1.3 * 0.55 + 0.37;
+    d[1][1] = -(1.3 * (0.123 + 0.3) + 0.37);
+    d[2][2] = 1.3 * (0.55 + 0.55) + 0.37;
+    d
+}
+
+/// strictly dominant nonsymmetric 3x3 systems whose entries are NOT dyadic (every operation rounds, so no step is an exact
+/// Lanczos breakdown and the recurrence residuals drift): every off-diagonal word over the letters, two diagonal sign patterns,
+/// two right-hand sides, zero guess, the non-CG solvers at tol 1e-12 and 1e-8
+fn generic_real_space(ctx: &Ctx, letters: &[f64], words: Option<(String, Vec<Vec<usize>>)>) {
+    let n = 3usize;
+    let l = letters.len() as u64;
+    let lt = letters.to_vec();
+    let (wname, wlist) = match words {
+        Some((nm, w)) => (nm, Some(w)),
+        None => ("every off-diagonal word".to_string(), None),
+    };
+    let nwords = match &wlist {
+        Some(w) => w.len() as u64,
+        None => pow(l, 6),
+    };
+    ctx.lattice(
+        &format!("generic-real strictly dominant 3x3: {} over {:?}, diagonal = +-(1.3 row sum + 0.37) with signs (+,+,+) / (+,-,+); 2 rhs x tol {{1e-12,1e-8}} x BiCG (itol 1, 2), BiCGSTAB, QMR", wname, letters),
+        nwords * 2,
+        |idx| format!("offdiag#{} signs#{}", idx / 2, idx % 2),
+        |idx, acc| {
+            let mut dg = vec![0usize; 6];
+            match &wlist {
+                Some(w) => dg = w[(idx / 2) as usize].clone(),
+                None => digits_uniform(idx / 2, l, &mut dg),
+            }
+            let mut d = vec![vec![0.0f64; n]; n];
+            let mut k = 0;
+            for i in 0..n {
+                for j in 0..n {
+                    if i != j {
+                        d[i][j] = lt[dg[k]];
+                        k += 1;
+                    }
+                }
+            }
+            for i in 0..n {
+                let s: f64 = (0..n).filter(|&j| j != i).map(|j| d[i][j].abs()).sum();
+                d[i][i] = (1.3 * s + 0.37) * if idx % 2 == 1 && i == 1 { -1.0 } else { 1.0 };
+            }
+            acc.nontriv("generic-real dominant system");
+            if (0..n).any(|i| (0..n).any(|j| d[i][j] != d[j][i])) {
+                acc.hit("nonsymmetric system");
+            }
+            let a = sparse_of(&d, (idx % 7) as usize);
+            let kappa = cond_inf(&d);
+            let ainv = kappa / norm_inf_mat(&d);
+            let bs: Vec<Vec<f64>> = vec![vec![0.9184622128670501, 0.006907651164131723, 0.5234778673726308], matvec(&d, &[1.0, -0.5, 2.0])];
+            for (ri, b) in bs.iter().enumerate() {
+                let exact = match lu_solve(&d, &[b.clone()]) {
+                    Some(v) => v[0].clone(),
+                    None => return,
+                };
+                let bn = norm2(b);
+                for &tol in [1e-12, 1e-8].iter() {
+                    for &s in [Solver::Bicg1, Solver::Bicg2, Solver::Bicgstab, Solver::Qmr].iter() {
+                        acc.hit("solver runs");
+                        if matches!(s, Solver::Bicg1 | Solver::Bicg2) && ri == 1 && tol == 1e-12 && d == floor_member() {
+                            acc.hit("member listed as a known finding (judged in its own space)");
+                            continue;
+                        }
+                        let key = || format!("generic {:?} A={:?} rhs#{} tol={:e}", s, d, ri, tol);
+                        let res = catch(|| -> Result<(f64, f64), String> {
+                            let bv = Vector::create(b.clone());
+                            let mut x = Vector::create(vec![0.0; n]);
+                            let cap = iteration_cap(n);
+                            let k = match run(s, &a, &bv, &mut x, cap, tol) {
+                                Ok(k) => k,
+                                Err(e) => return Err(format!("no success within {} iterations (Err({:e})); x = {:?}", cap, e, x.vec)),
+                            };
+                            ensure!(x.vec.iter().all(|v| v.is_finite()), "Ok({}) but x = {:?}", k, x.vec);
+                            let err = (0..n).map(|i| (x[i] - exact[i]).abs()).fold(0.0, f64::max);
+                            let bound = 10.0 * tol * ainv * bn + 100.0 * kappa * EPS * norm_inf(&exact) + 1e-300;
+                            ensure!(err <= bound, "Ok({}) but ||x - x*||_inf = {:e} > {:e}", k, err, bound);
+                            Ok((k as f64 / cap as f64, err / bound))
+                        });
+                        match res {
+                            Ok(Ok((kk, eb))) => {
+                                acc.worst("iterations_over_cap", kk, key);
+                                acc.worst("error_over_bound", eb, key);
+                            }
+                            Ok(Err(e)) => acc.fail(idx, key(), e),
+                            Err(p) => acc.fail(idx, key(), format!("unexpected panic: {}", p)),
+                        }
+                    }
+                }
+            }
+        },
+    );
+}
+
 fn main() {
     let ctx = Ctx::from_args("C09");
     ctx.level("exploration");
@@ -294,6 +394,29 @@ fn main() {
             },
         );
     }
+    {
+        let g6 = [0.0, 0.7, -0.3, 0.55, -0.9, 0.123];
+        if ctx.quick() {
+            generic_real_space(&ctx, &g6[..4], None);
+            // plus the <= 2-letter neighbourhoods of three members of the full 6-letter lattice on which QMR's recurrence residual
+            // used to freeze just above tol (letter indices of the off-diagonals, row by row)
+            let mut words: Vec<Vec<usize>> = vec![];
+            for base in [[2usize, 4, 2, 5, 0, 0], [0, 0, 1, 4, 2, 3], [1, 4, 5, 1, 2, 2]] {
+                for dv in deviations(6, 6, 2) {
+                    let mut w = base.to_vec();
+                    for &(p, a) in &dv {
+                        w[p] = a;
+                    }
+                    words.push(w);
+                }
+            }
+            words.sort();
+            words.dedup();
+            generic_real_space(&ctx, &g6, Some(("<= 2 deviations from three former QMR-stagnation members".to_string(), words)));
+        } else {
+            generic_real_space(&ctx, &g6, None);
+        }
+    }
     // Right-hand sides beyond 1e155 in norm: r.r overflows (below 1e-155: underflows) in CG, BiCG and BiCGSTAB, which then
     // fail on a perfectly conditioned system; QMR normalises its vectors and survives. The property says "right-hand
     // sides of any scale": genuine, not repaired (it needs scaled inner products throughout three solvers), listed.
@@ -378,5 +501,27 @@ fn main() {
             }
         },
     );
+    // BiCG's accuracy floor after a near breakdown (the second bug hunt found the same on random 6x6 and 16x16 systems with a
+    // mixed-sign diagonal, about 1 in 2500): the residual stalls at 1e-11..1e-10 and tol = 1e-12 is never reported. Genuine ("every
+    // strictly diagonally dominant system"), not repaired: it needs a restart / look-ahead strategy inside BiCG.
+    {
+        let floor = |itol: usize| -> Result<(), String> {
+            let d = floor_member();
+            let a = sparse_of(&d, 0);
+            let b = matvec(&d, &[1.0, -0.5, 2.0]);
+            let mut x = Vector::create(vec![0.0; 3]);
+            match a.solve_bicg(&Vector::create(b), &mut x, iteration_cap(3), 1e-12, itol) {
+                Ok(_) => Ok(()),
+                Err(e) => Err(format!("no success within {} iterations (Err({:e})); x = {:?}", iteration_cap(3), e, x.vec)),
+            }
+        };
+        ctx.known_cases(
+            "listed inputs: BiCG accuracy floor after a near breakdown",
+            vec![
+                ("bicg-floor itol=1 A=[[1.085,0.55,0],[0.123,-0.9199,-0.3],[0.55,0.55,1.8]] b=A(1,-0.5,2) tol=1e-12".to_string(), Box::new(move || floor(1))),
+                ("bicg-floor itol=2 A=[[1.085,0.55,0],[0.123,-0.9199,-0.3],[0.55,0.55,1.8]] b=A(1,-0.5,2) tol=1e-12".to_string(), Box::new(move || floor(2))),
+            ],
+        );
+    }
     std::process::exit(ctx.finish());
 }
